@@ -135,7 +135,7 @@ func (e *Engine) verifyOnce(fc *FnContract, path string) (rep *FuncReport) {
 	e.pc = X.True
 	e.applyInit(st, fn)
 	e.assume(X.Ule(X.Const(0x100000, 32), e.alloc0))
-	e.assume(X.Ule(e.alloc0, X.Const(0x7fffffff, 32)))
+	e.assume(X.Ule(e.alloc0, X.Const(0x07ffffff, 32)))
 	e.freshBase = e.alloc0
 	var args []Val
 	cps := fc.C.AllParams()
@@ -297,8 +297,11 @@ func (e *Engine) observeParam(name string, v Val, st *State) ParamInfo {
 // appendBuiltin: Go's append. If the result fits the capacity the backing array is extended in
 // place (visible through every slice that shares it), otherwise a fresh array is allocated.
 func (e *Engine) appendBuiltin(f *frame, x *ssa.Call, args []Val) Val {
+	return e.appendCore(f, args[0], args[1], x.Pos())
+}
+
+func (e *Engine) appendCore(f *frame, s, el Val, pos token.Pos) Val {
 	X := e.X
-	s, el := args[0], args[1]
 	st, ok := s.T.Underlying().(*types.Slice)
 	if !ok {
 		bail("append to %s", s.T)
@@ -319,7 +322,7 @@ func (e *Engine) appendBuiltin(f *frame, x *ssa.Call, args []Val) Val {
 	e.assume(X.And(X.Ule(newLen, newCap), X.Ule(newCap, X.Const(1<<41, 64))))
 	if e.frameOn && e.specDepth == 0 && !s.ref().IsConst() {
 		l := frameLoc{kind: "range", ref: s.ref(), keyPfx: "arr:" + typeKey(elem) + "/", lo: X.BVAdd(s.off(), s.ln()), hi: X.BVAdd(s.off(), newLen), text: "append"}
-		e.oblige("frame", "append in place", X.Or(X.Not(fits), e.locAllowed(l)), x.Pos())
+		e.oblige("frame", "append in place", X.Or(X.Not(fits), e.locAllowed(l)), pos)
 	}
 	for _, c := range comps(elem) {
 		key := "arr:" + typeKey(elem) + "/" + c.Suffix
